@@ -6,13 +6,14 @@
  *   v_i    valio.h value tokens (the starting pool); the pool lives INSIDE an lp_assignment_t: slot i is the
  *          value of variable x_i, and every query goes through the const lp_value_t* the assignment hands out
  *   p_k    polyio.h polynomials over x0..x5 (assigned) and possibly x6 (never assigned; root isolation only)
- *   op     cmp:i:j  cz:i:<int>  cq:i:<n>/<d>  cd:i:<a>/<k>  sg:i  fl:i  ce:i  ii:i  db:i  rf:i:<k>  ha:i:<prec>  mi:i
+ *   op     cmp:i:j  cz:i:<int>  cq:i:<n>/<d>  cd:i:<a>/<k>  sg:i  fl:i  ce:i  ii:i  ra:i  db:i  rf:i:<k>  ha:i:<prec>  mi:i
  *          add:d:i:j  sub:d:i:j  mul:d:i:j  div:d:i:j  neg:d:i  inv:d:i  cp:d:i  rc:i  ps:k  pe:k  pr:k
  *
  * output (one line):  init | <rep0..rep5> | <floor, ceiling, hash_approx(0), hash_approx(6) of 6 UNTOUCHED copies of the starting pool>
  *                     for every step   # <obs...> | <rep0..rep5> | <battery: 45 tokens> | <rep0..rep5>
  *                     $ <floor, ceiling of the untouched copies again>      (they are never used in between)
- *   obs      cmp/cz/cq/cd/sg: sign; fl/ce: integer; ii: 0/1; db: the double as an exact rational q:n/d; rf: -;
+ *   obs      cmp/cz/cq/cd/sg: sign; fl/ce: integer; ii: 0/1; ra: lp_value_is_rational 0/1, then lp_value_get_rational
+ *            as n/d (or - when not rational), then lp_algebraic_number_to_rational as n/d (or - when not algebraic); db: the double as an exact rational q:n/d; rf: -;
  *            ha: the size_t; mi: d:a/k or -; add/sub/mul/neg/cp/rc: -; ps: sign; pe: value token;
  *            pr: <n> followed by n value tokens
  *   rep      raw representation of the slot (struct fields f, I, sgn_at_a, sgn_at_b) printed by vio_print
@@ -116,6 +117,17 @@ static void do_op(char* tok) {
     print_z(&z); lp_integer_destruct(&z); return;
   }
   if (strcmp(op, "ii") == 0) { printf("%d", lp_value_is_integer(S(i)) ? 1 : 0); return; }
+  if (strcmp(op, "ra") == 0) {
+    int r = lp_value_is_rational(S(i)) ? 1 : 0;
+    printf("%d ", r);
+    lp_rational_t q; lp_rational_construct(&q);
+    if (r) { lp_value_get_rational(S(i), &q); print_z(mpq_numref(&q)); putchar('/'); print_z(mpq_denref(&q)); } else putchar('-');
+    putchar(' ');
+    if (S(i)->type == LP_VALUE_ALGEBRAIC) {
+      lp_algebraic_number_to_rational(&S(i)->value.a, &q); print_z(mpq_numref(&q)); putchar('/'); print_z(mpq_denref(&q));
+    } else putchar('-');
+    lp_rational_destruct(&q); return;
+  }
   if (strcmp(op, "db") == 0) {
     double x = lp_value_to_double(S(i));
     if (!isfinite(x)) { printf("BAD:non-finite-double"); return; }
